@@ -97,7 +97,8 @@ type FnCtx struct {
 	curProps        []string
 	sigStack        []*types.Signature
 	autoFrame       bool
-	pureDepth       int // nesting of callee-body scans in callIsPure
+	renames         map[string]string // contract name of a local -> its current name (locals.go)
+	pureDepth       int               // nesting of callee-body scans in callIsPure
 	callHeapKeys    map[string]bool
 	deps            map[string]bool
 	isMacro         map[string]bool
